@@ -21,3 +21,8 @@ check("C08", "exploration", "complete-tree exploration (all resampling tuples x 
       "For N=2 the complete choice tree (N=3: <=2/3 deviations) of the real loop is executed; every per-step log ratio and delta-method variance is recomputed with mpmath from the population stored before that step and the temperatures actually used, the returned log-evidence must be their sum and the error the root of the summed variances; each execution is re-run with identical choices plus n_final_samples / a checkpoint callback (cadence 1, 2) and must return bit-identical evidence.",
       "Teleport kernel stub; log-weight spreads {0,3,1e3}; <=3 iterations enumerated.",
       "DESIGN.md 4/C08")
+
+check("C07", "exploration", "small-scope exhaustive enumeration of populations x temperatures x targets x tolerances against the real temperature search, with a monotonicity-lemma oracle in extended precision",
+      "Every multiset population over a 7-value log-weight alphabet (N=2,3,4,6) x 4 current temperatures x 6 targets (scalar and ramp) x 3 tolerances x 2 floors is passed to the real determine_beta; since ESS is non-increasing in the step (proved in DESIGN.md), 'largest temperature meeting the target within tolerance' is decided exactly by ESS(beta_new)/N >= target and ESS(beta_new+tol)/N < target, recomputed with mpmath. The same post-condition is evaluated on every adaptive step of real runs explored with <=2 environment deviations.",
+      "Finite alphabets; epsilon 1e-9 on efficiencies; target in force = ramp at the starting temperature.",
+      "DESIGN.md 4/C07")
